@@ -375,7 +375,9 @@ def query_overlap_of_other_tree(
 
     broad_pairs = list(zip(broad_tetrahedra1, broad_tetrahedra2))
 
-    return np.array(broad_tetrahedra1), np.array(broad_tetrahedra2), broad_pairs
+    # empty lists would result in float arrays in interpreted mode
+    return (np.array(broad_tetrahedra1, dtype=np.int64),
+            np.array(broad_tetrahedra2, dtype=np.int64), broad_pairs)
 
 
 @numba.njit(cache=True)
@@ -402,7 +404,7 @@ def query_overlap(test_aabb, root_node_index, nodes, aabbs, break_at_first_leaf=
             else:
                 stack.extend([nodes[node_index, 1], nodes[node_index, 2]])
 
-    return np.array(overlaps)
+    return np.array(overlaps, dtype=np.int64)
 
 
 def print_aabb_tree_recursive(node_index, nodes):  # pragma: no cover
